@@ -18,6 +18,7 @@
 use bytes::Bytes;
 use rtcverif::{Rng, read_ndjson};
 use rustrtc::media::frame::{AudioFrame, MediaKind, MediaSample};
+use rustrtc::media::pipeline::{ChannelMediaSource, MediaSource, SampleQueueSender, VerifChannelProbe};
 use rustrtc::media::track::{
     MediaStreamTrack, SampleStreamSource, SampleStreamTrack, VerifSourceProbe, sample_track,
 };
@@ -254,6 +255,8 @@ struct Cfg {
     shared: bool,
     nodrop: Vec<i64>,
     stop: bool,
+    chan: bool,  // variant "chan": SampleQueueSender / ChannelMediaSource of pipeline.rs
+    cmax: u64,   // chan: the consumer drops the receiver after this many recv() calls (0 = never)
     raw: Value,
 }
 
@@ -271,6 +274,8 @@ fn parse_cfg(v: &Value) -> Cfg {
         shared: v["shared"].as_bool().unwrap(),
         nodrop: v["nodrop"].as_array().unwrap().iter().map(|x| x.as_i64().unwrap()).collect(),
         stop: v["stop"].as_bool().unwrap(),
+        chan: v["variant"].as_str() == Some("chan"),
+        cmax: v["cmax"].as_u64().unwrap_or(0),
         raw: v.clone(),
     }
 }
@@ -278,15 +283,73 @@ fn parse_cfg(v: &Value) -> Cfg {
 enum Handle {
     Arc(Arc<SampleStreamSource>),
     Own(SampleStreamSource),
+    Chan(Arc<SampleQueueSender>),
+    #[allow(dead_code)]
+    Receiver(ChannelMediaSource), // handed back by the consumer thread: dropped by the controller at teardown
 }
 impl Handle {
     fn src(&self) -> &SampleStreamSource {
         match self {
             Handle::Arc(a) => a,
             Handle::Own(s) => s,
+            _ => panic!("not a track source"),
+        }
+    }
+    fn send(&self, s: MediaSample) -> &'static str {
+        match self {
+            Handle::Chan(c) => match c.send(s) {
+                Ok(()) => "Ok",
+                Err(()) => "Closed",
+            },
+            h => ret_of(h.src().send(s)),
+        }
+    }
+    fn try_send(&self, s: MediaSample) -> &'static str {
+        match self {
+            // the rejected sample comes back (queue full or closed) and is dropped here
+            Handle::Chan(c) => match c.try_send(s) {
+                Ok(()) => "Ok",
+                Err(_back) => "Rejected",
+            },
+            h => ret_of(h.src().try_send(s)),
         }
     }
 }
+
+/// What the controller reads after every step.
+struct Snap {
+    head: usize,
+    tail: usize,
+    closed: bool,
+    ended: bool,
+    pop_locked: bool,
+    push_locked: bool,
+    active: i64,
+}
+
+enum Obj {
+    Track(Arc<SampleStreamTrack>, VerifSourceProbe),
+    // all threads are parked while the controller looks, so upgrading the Weak for a moment cannot make the
+    // controller the last owner of the sender
+    Chan(VerifChannelProbe, std::sync::Weak<SampleQueueSender>),
+}
+impl Obj {
+    fn snap(&self) -> Snap {
+        match self {
+            Obj::Track(t, p) => {
+                let s = t.verif_snapshot();
+                Snap { head: s.head, tail: s.tail, closed: s.source_closed, ended: s.ended, pop_locked: s.pop_locked,
+                       push_locked: p.push_locked(), active: p.active_senders() as i64 }
+            }
+            Obj::Chan(p, w) => {
+                let (head, tail, closed, pop_locked) = p.snapshot();
+                let push_locked = w.upgrade().map(|s| s.verif_push_locked()).unwrap_or(false);
+                Snap { head, tail, closed, ended: false, pop_locked, push_locked, active: 1 }
+            }
+        }
+    }
+}
+
 
 struct Shared {
     nonce: u64,
@@ -325,9 +388,9 @@ fn producer_body(
             "send" | "try" => {
                 k += 1;
                 let s = frame_counted(p * 10 + k, sh.nonce, sh.seed, &sh.live);
-                let src = handle.as_ref().unwrap().src();
-                let r = if op == "send" { src.send(s) } else { src.try_send(s) };
-                slot.set_ret(ret_of(r), 0);
+                let h = handle.as_ref().unwrap();
+                let r = if op == "send" { h.send(s) } else { h.try_send(s) };
+                slot.set_ret(r, 0);
             }
             "many" => {
                 let a = frame_counted(p * 10 + k + 1, sh.nonce, sh.seed, &sh.live);
@@ -358,16 +421,49 @@ fn producer_body(
     None
 }
 
-fn consumer_body(slot: &Arc<Slot>, sh: &Arc<Shared>, track: Arc<SampleStreamTrack>, wk: Arc<FlagWaker>) {
+enum Cons {
+    Track(Arc<SampleStreamTrack>),
+    Chan(ChannelMediaSource, u64),
+}
+
+fn consumer_body(slot: &Arc<Slot>, sh: &Arc<Shared>, mut cons: Cons, wk: Arc<FlagWaker>) -> Option<Handle> {
     let waker = Waker::from(wk.clone());
     let mut cx = Context::from_waker(&waker);
+    let mut calls = 0u64;
+    let r = consumer_loop(slot, sh, &mut cons, &wk, &mut cx, &mut calls);
+    match cons {
+        // the receiver is not dropped by this thread unless the model says so (cmax): Drop has scheduling points
+        Cons::Chan(src, cmax) => {
+            if r && cmax > 0 && calls == cmax {
+                drop(src);
+                None
+            } else {
+                Some(Handle::Receiver(src))
+            }
+        }
+        Cons::Track(_) => None,
+    }
+}
+
+/// returns true when the consumer is to drop its receiver now (chan, cmax reached and the step was granted)
+fn consumer_loop(slot: &Arc<Slot>, sh: &Arc<Shared>, cons: &mut Cons, wk: &Arc<FlagWaker>, cx: &mut Context<'_>,
+                 calls: &mut u64) -> bool {
     loop {
         if !slot.park("call") {
-            return;
+            return false;
         }
-        let mut fut = track.recv();
+        if let Cons::Chan(_, cmax) = cons {
+            if *cmax > 0 && *calls == *cmax {
+                return true;
+            }
+        }
+        *calls += 1;
+        let mut fut = match cons {
+            Cons::Track(t) => t.recv(),
+            Cons::Chan(s, _) => s.next_sample(),
+        };
         loop {
-            match fut.as_mut().poll(&mut cx) {
+            match fut.as_mut().poll(cx) {
                 Poll::Ready(Ok(sample)) => {
                     let (id, same) = identify(&sample, sh.nonce, sh.seed);
                     sh.received.lock().unwrap().push((id, same));
@@ -377,7 +473,7 @@ fn consumer_body(slot: &Arc<Slot>, sh: &Arc<Shared>, track: Arc<SampleStreamTrac
                 }
                 Poll::Ready(Err(MediaError::EndOfStream)) => {
                     slot.set_ret("eos", 0);
-                    return;
+                    return false;
                 }
                 Poll::Ready(Err(e)) => {
                     slot.set_ret(ret_of(Err(e)), 0);
@@ -385,7 +481,7 @@ fn consumer_body(slot: &Arc<Slot>, sh: &Arc<Shared>, track: Arc<SampleStreamTrac
                 }
                 Poll::Pending => {
                     if !slot.park("c_sleep") {
-                        return; // cancelled: the future is dropped
+                        return false; // cancelled: the future is dropped
                     }
                     wk.0.store(false, Ordering::SeqCst);
                 }
@@ -399,8 +495,7 @@ struct Running {
     sh: Arc<Shared>,
     slots: BTreeMap<i64, Arc<Slot>>,
     joins: Vec<(i64, std::thread::JoinHandle<Option<Handle>>)>,
-    track: Option<Arc<SampleStreamTrack>>,
-    probe: VerifSourceProbe,
+    obj: Option<Obj>,
     wk: Arc<FlagWaker>,
     windows: HashMap<i64, (String, i64)>,
     race: Vec<Value>,
@@ -447,11 +542,25 @@ fn start(cfg: &Cfg, nonce: u64, seed: u64) -> Result<Running, String> {
         abort: abort.clone(),
         received: Mutex::new(Vec::new()),
     });
-    let (source, track, _fb) = sample_track(MediaKind::Audio, cfg.cap);
-    let probe = source.verif_probe();
     // handles are prepared by the controller thread (no scheduler slot: its sched points are no-ops)
     let mut handles: BTreeMap<i64, Handle> = BTreeMap::new();
     let prods: Vec<i64> = cfg.progs.keys().copied().collect();
+    let (obj, cons, stop_track);
+    if cfg.chan {
+        let (sender, source) = ChannelMediaSource::channel(MediaKind::Audio, cfg.cap);
+        let probe = sender.verif_probe();
+        let a = Arc::new(sender);
+        obj = Obj::Chan(probe, Arc::downgrade(&a));
+        for p in &prods {
+            handles.insert(*p, Handle::Chan(a.clone()));
+        }
+        cons = Cons::Chan(source, cfg.cmax);
+        stop_track = None;
+    } else {
+    let (source, track, _fb) = sample_track(MediaKind::Audio, cfg.cap);
+    obj = Obj::Track(track.clone(), source.verif_probe());
+    cons = Cons::Track(track.clone());
+    stop_track = Some(track);
     if cfg.shared {
         let a = Arc::new(source);
         for p in &prods {
@@ -462,6 +571,7 @@ fn start(cfg: &Cfg, nonce: u64, seed: u64) -> Result<Running, String> {
             handles.insert(*p, Handle::Own(source.clone()));
         }
         handles.insert(prods[0], Handle::Own(source));
+    }
     }
     let wk = Arc::new(FlagWaker(AtomicBool::new(false)));
     let mut slots = BTreeMap::new();
@@ -480,17 +590,13 @@ fn start(cfg: &Cfg, nonce: u64, seed: u64) -> Result<Running, String> {
         let slot = Slot::new(abort.clone());
         slots.insert(C, slot.clone());
         let shc = sh.clone();
-        let t = track.clone();
         let w = wk.clone();
-        joins.push((C, spawn(C, slot, move |s| {
-            consumer_body(s, &shc, t, w);
-            None
-        })));
+        joins.push((C, spawn(C, slot, move |s| consumer_body(s, &shc, cons, w))));
     }
     if cfg.stop {
         let slot = Slot::new(abort.clone());
         slots.insert(S, slot.clone());
-        let t = track.clone();
+        let t = stop_track.clone().expect("stop() needs a track");
         joins.push((S, spawn(S, slot, move |s| {
             if s.park("call") {
                 t.stop();
@@ -503,8 +609,7 @@ fn start(cfg: &Cfg, nonce: u64, seed: u64) -> Result<Running, String> {
         sh,
         slots,
         joins,
-        track: Some(track),
-        probe,
+        obj: Some(obj),
         wk,
         windows: HashMap::new(),
         race: Vec::new(),
@@ -530,10 +635,10 @@ impl Running {
         if ph == Phase::Done {
             return Some("thread is done".into());
         }
-        let snap = self.track.as_ref().unwrap().verif_snapshot();
+        let snap = self.obj.as_ref().unwrap().snap();
         match l.as_str() {
             "r_lock" if snap.pop_locked => Some("pop lock is held".into()),
-            "src_lock" if self.probe.push_locked() => Some("producer lock is held".into()),
+            "src_lock" if snap.push_locked => Some("producer lock is held".into()),
             "c_sleep" if !self.wk.0.load(Ordering::SeqCst) => Some("consumer sleeps, not woken".into()),
             _ => None,
         }
@@ -568,15 +673,15 @@ impl Running {
                 }
             }
         }
-        let snap = self.track.as_ref().unwrap().verif_snapshot();
+        let snap = self.obj.as_ref().unwrap().snap();
         let (cph, cl) = self.label(C);
         let woken = cph == Phase::Parked && cl == "c_sleep" && self.wk.0.load(Ordering::SeqCst);
         let (rs, got) = ret.unwrap_or((String::new(), 0));
         let _ = ph;
         Ok(json!({
-            "lbl": l, "head": snap.head as i64, "tail": snap.tail as i64, "closed": snap.source_closed,
-            "ended": snap.ended, "active": self.probe.active_senders() as i64, "poplocked": snap.pop_locked,
-            "plocked": self.probe.push_locked(), "woken": woken, "live": self.sh.live.load(Ordering::SeqCst),
+            "lbl": l, "head": snap.head as i64, "tail": snap.tail as i64, "closed": snap.closed,
+            "ended": snap.ended, "active": snap.active, "poplocked": snap.pop_locked,
+            "plocked": snap.push_locked, "woken": woken, "live": self.sh.live.load(Ordering::SeqCst),
             "ret": rs, "got": got,
             "win": self.windows.get(&p).map(|w| w.1).unwrap_or(-1),
         }))
@@ -609,7 +714,7 @@ impl Running {
             }
         }
         drop(kept);
-        self.track.take();
+        self.obj.take();
         let live = self.sh.live.load(Ordering::SeqCst);
         let rec = self.sh.received.lock().unwrap().clone();
         let _ = &self.cfg;
@@ -852,7 +957,7 @@ fn main() {
                     }
                 }
                 let labels: BTreeMap<String, String> = run.slots.keys().map(|p| (p.to_string(), run.label(*p).1)).collect();
-                let snap = run.track.as_ref().unwrap().verif_snapshot();
+                let snap = run.obj.as_ref().unwrap().snap();
                 let woken = run.wk.0.load(Ordering::SeqCst);
                 let race = run.race.clone();
                 let complete = followed == steps.len();
@@ -864,7 +969,7 @@ fn main() {
                     (-1, rec, 0)
                 };
                 out.push(&json!({"type":"witness","id":line["id"],"followed":followed,"of":steps.len(),"complete":complete,
-                    "stopped":stopped,"labels":labels,"closed":snap.source_closed,"ended":snap.ended,"head":snap.head as i64,
+                    "stopped":stopped,"labels":labels,"closed":snap.closed,"ended":snap.ended,"head":snap.head as i64,
                     "tail":snap.tail as i64,"woken":woken,"race":race,"live_after_teardown":live,
                     "received":rec.iter().map(|r| r.0).collect::<Vec<_>>(),
                     "received_identical":rec.iter().all(|r| r.1),"rets":rets,"last":last_obs,"cfg":c.raw}));
